@@ -457,6 +457,48 @@ def case_public(case):
     return {k: v for k, v in case.items() if k != "_n"}
 
 
+def embedded_exit_code(binary, base, rep):
+    """exit-code clause on files that yield SEVERAL documents (an .html host document plus the
+    javascript of its <script>): every pair of own severities of an html rule and a js rule x which
+    documents have a finding x one more plain .js file with/without a finding. The scan must exit
+    non-zero exactly when a REPORTED finding belongs to a rule whose (own) severity is error."""
+    contents = {"host": "<font>x</font>\n<script>bar(1)</script>\n", "script": "<b>x</b>\n<script>foo(1)</script>\n",
+                "both": "<font>x</font>\n<script>foo(1)</script>\n", "both-script-first": "<script>foo(1)</script>\n<font>x</font>\n"}
+    jobs = [(sh, sj, c, extra) for sh in SEVS for sj in SEVS for c in contents for extra in ("none", "nomatch.js")]
+
+    def one(job):
+        sh, sj, c, extra = job
+        root = os.path.join(base, "emb_%s_%s_%s_%s" % (sh, sj, c, extra.replace(".", "_")))
+        tree = {"sgconfig.yml": json.dumps({"ruleDirs": ["rules"]}) + "\n",
+                "rules/h.yml": json.dumps({"id": "h1", "language": "html", "severity": sh, "rule": {"pattern": "<font>$$$A</font>"}}) + "\n",
+                "rules/j.yml": json.dumps({"id": "j1", "language": "js", "severity": sj, "rule": {"pattern": "foo($A)"}}) + "\n",
+                "web/nested/page.html": contents[c]}
+        if extra != "none":
+            tree["web/" + extra] = "bar(2)\n"
+        vlib.write_tree(root, tree)
+        code, out, err = vlib.run_cli(binary, ["scan", "--json=stream"], root, timeout=60)
+        return job, code, out, err
+    n = 0
+    for (sh, sj, c, extra), code, out, err in vlib.pmap(one, jobs, workers=16):
+        n += 1
+        case = {"factor": "E:exit code with several documents per file", "html_rule_severity": sh, "js_rule_severity": sj, "page.html": contents[c], "extra_file": extra}
+        crash = vlib.is_crash(code, err)
+        if crash:
+            rep.violation("crash:%s:scan" % crash, dict(case, stderr=err.decode("utf-8", "replace")[-300:]))
+            continue
+        try:
+            ids = [json.loads(l)["ruleId"] for l in out.decode().splitlines() if l.strip()]
+        except (ValueError, KeyError) as e:
+            rep.violation("output:unparseable", dict(case, error=str(e)))
+            continue
+        sev_of = {"h1": sh, "j1": sj}
+        any_error = any(sev_of.get(i) == "error" for i in ids)
+        if (code != 0) != any_error:
+            where = "error-finding-in-host-document" if "h1" in ids and sh == "error" else "error-finding-in-embedded-document"
+            rep.violation("exit-code:%s:several-documents:%s" % ("zero-with-error-finding" if any_error else "nonzero-without-error-finding", where), dict(case, exit=code, reported=ids))
+    return n
+
+
 def main(argv):
     args = vlib.parse_args(argv)
     rep = vlib.Reporter(PROP, args)
@@ -479,6 +521,7 @@ def main(argv):
         return obs, verdicts
 
     results = vlib.pmap(work, cases, workers=16)
+    n_embedded = embedded_exit_code(binary, base, rep)
 
     per_factor, outcomes, nontrivial, label_mismatch = {}, {}, set(), 0
     decisions = applied = 0
@@ -524,7 +567,7 @@ def main(argv):
         "file_rule_decisions_judged": decisions,
         "file_rule_pairs_expected_applied": applied,
         "deciding_clause_counts": reasons,
-        "runs_per_factor": per_factor,
+        "runs_per_factor": dict(per_factor, **{"E:exit code with several documents per file": n_embedded}),
         "outcomes_(any_finding,exit_code)": outcomes,
         "severity_label_disagreements_not_judged": label_mismatch,
         "exhaustive": True,
@@ -547,7 +590,7 @@ def main(argv):
             "B1) all 5^3 own severities x {full, test/ only}; B2) complete override alphabet (none; 1 id->1 flag; 2 ids->any 2 flags; bare flag; "
             "bare + per-id on a different flag; 6 --filter regexes alone / with --error / with --off=r1) x own-severity assignments "
             "(quick: 2 fixed; thorough: the 25 assignments (s1, s2, SEVS[(i1+i2)%5]), i.e. every pair of rules sees all 25 severity pairs); C) 9 languageGlobs settings (two of them re-assign an extension owned by a built-in language: the glob wins) x 36 rule sets x layouts (quick: full; thorough: full, ext=txt, ext=none); "
-            "D) {no path, `.`} x every layout x {none, --error, --off=r1}. Every source file holds `foo(1)` and every rule is `foo($A)`, so 'rule applied "
+            "D) {no path, `.`} x every layout x {none, --error, --off=r1}; E) exit-code clause on an .html file (host document + <script>): all 25 own-severity pairs of an html rule and a js rule x 4 contents x with/without another file. Every source file holds `foo(1)` and every rule is `foo($A)`, so 'rule applied "
             "to file' <=> >= 1 finding (file, ruleId). Non-trivial case = the reference expects >= 1 applied (file, rule) pair AND >= 1 pair excluded by a "
             "rule-side clause (language mismatch, files, ignores, off, filter). Out of the alphabet (statement silent): one id on two different flags, two "
             "bare flags, --filter matching no rule, regexes whose search/full-match differ, globs where `*` crossing `/` would matter, a file claimed by two languageGlobs entries."),
